@@ -79,6 +79,33 @@ def main():
     ok2 = acc_upd(p2)
     results.append(("UpdateCommandSteps", ok0, ok1, ok2))
     log(f"UpdateCommand steps: unmodified trace accepted={ok0}; target kind changed accepted={ok1}; one event dropped accepted={ok2}")
+    # record-level trace (file discovery): drop one executed document from a recorded run / report success for a path that
+    # does not exist, and require a verdict from TLC for each
+    src = os.path.join(WORKROOT, "C20-quick", "DiscoveryTrace_shard0.ndjson")
+    if not os.path.exists(src):
+        subprocess.run([sys.executable, os.path.join(VERIF, "run", "check.py"), "C20"], check=False, stdout=subprocess.DEVNULL)
+    recs = read_ndjson(src)[:60]
+    def dverdicts(path):
+        r = tlc("DiscoveryTrace", "DiscoveryTrace.cfg", work, workers=1, env={"TRACE": path}, depth_first=True, timeout=600,
+                line_filter=lambda l: l.startswith("<<") or "rror" in l)
+        return len(r.printed("VERDICT")), r.ok
+    base = os.path.join(work, "disc_base.ndjson"); write_ndjson(base, recs)
+    v0, ok0 = dverdicts(base)
+    c1 = json.loads(json.dumps(recs))
+    idx = next(i for i, r in enumerate(c1) if len(r["obs"]["ran"]) >= 2 and r["obs"]["exit"] == 0)
+    c1[idx]["obs"]["ran"] = c1[idx]["obs"]["ran"][1:]
+    c1[idx]["obs"]["nres"] -= 1
+    p1 = os.path.join(work, "disc_dropped.ndjson"); write_ndjson(p1, c1)
+    v1, _ = dverdicts(p1)
+    c2 = json.loads(json.dumps(recs))
+    idx2 = next((i for i, r in enumerate(c2) if r["obs"]["exit"] == 1), None)
+    v2 = 1
+    if idx2 is not None:
+        c2[idx2]["obs"]["exit"] = 0
+        p2 = os.path.join(work, "disc_exit.ndjson"); write_ndjson(p2, c2)
+        v2, _ = dverdicts(p2)
+    log(f"Discovery: recorded runs: {v0} verdict(s), accepted={ok0}; one executed document dropped: {v1} verdict(s); exit 0 for a path that does not exist: {v2} verdict(s)")
+    results.append(("Discovery", ok0 and v0 == 0, v1 == 0, v2 == 0))
     good = all(a and not b and not c for _, a, b, c in results)
     log("SELFTEST " + ("OK: the trace specifications accept the recorded traces and reject both corruptions" if good else "FAILED"))
     sys.exit(0 if good else 2)
